@@ -300,6 +300,7 @@ func TestC11_PostHandshake(t *testing.T) {
 	}
 	defer e.close()
 	ev.CheckScaled(t, c11, 1, 1, func(rt *rapid.T) {
+		defer drawSched(rt).install()() // seeded yields at the library's schedule points
 		mk := marker()
 		before := e.hOK.Load()
 		peer, err := netfx.DialRaw(e.srv.Addr)
